@@ -1,8 +1,10 @@
 /* C20 -- timeouts of filtering bufferevents (generic timeout events): bufferevent.c + bufferevent_filter.c over an
  * underlying socket bufferevent (bufferevent_sock.c), real code; sink evbuffer, recording event stubs, pass-through
  * harness filter (moves everything it may).  One operation (C20_OP) from an API-built state; the READ side of the
- * timeout invariant (C20_common.h) is asserted before and after.  The WRITE side of filters is a recorded finding
- * (KF-C20-filter-write-timeout): -DC20_CHECK_WRITE asserts it as well and is expected to fail.
+ * timeout invariant (C20_common.h) is asserted before and after, and of the WRITE side "never pending while writing is
+ * disabled, suspended or without a timeout".  The strict write clause (pending iff output is waiting) and flushes of a
+ * disabled direction are the recorded finding KF-C20-filter-timeouts: -DC20_CHECK_WRITE / -DKF_ONLY_filter_flush
+ * isolate them and are expected to fail.
  */
 #include "vp.h"
 #include "log_stub.h"
@@ -72,8 +74,14 @@ static void inv(void)
 	VP_ASSERT(((BEV_UPCAST(g_under)->read_suspended & BEV_SUSPEND_FILT_READ) != 0) == !c20_want_r(F),
 	    "C20: underlying bufferevent must be read-suspended by the filter iff the filter is not reading");
 #ifdef C20_CHECK_WRITE
+	/* the strict statement (fails on filters: KF-C20-filter-timeouts) */
 	VP_ASSERT(vp_ev_timer_pending(&b->ev_write) == (c20_want_w(F) && tv_isset(&b->timeout_write)),
 	    "C20: filter write timeout pending iff writing is enabled, not suspended, output is pending and a write timeout is set");
+#else
+	/* what holds for filters: never while writing is disabled, suspended or no timeout is set */
+	VP_ASSERT(!vp_ev_timer_pending(&b->ev_write) || ((b->enabled & EV_WRITE) && !U_PRIV(F)->write_suspended && tv_isset(&b->timeout_write)),
+	    "C20: filter write timeout pending although writing is disabled/suspended or no write timeout is set");
+	VP_ASSERT(!vp_ev_timer_pending(&b->ev_write) || tv_eq(&b->ev_write.ev_timeout, &b->timeout_write), "C20: write timeout runs with a stale duration");
 #endif
 	VP_ASSERT_NO_LOCKS("filter call");
 }
@@ -94,6 +102,7 @@ void harness_filter_step(void)
 	bufferevent_set_timeouts(f, vp_bool() ? &tr : NULL, vp_bool() ? &tw : NULL);
 	if (vp_bool()) bufferevent_enable(f, EV_READ);
 	if (vp_bool()) bufferevent_disable(f, EV_WRITE);
+	else if (vp_bool()) bufferevent_enable(f, EV_WRITE);        /* an explicit enable (what arms the write timeout of a filter) */
 	if (vp_bool()) bufferevent_suspend_read_(f, BEV_SUSPEND_BW);
 	if (vp_bool()) bufferevent_suspend_write_(f, BEV_SUSPEND_BW);
 #ifdef C20_WITH_OUTPUT
@@ -140,6 +149,8 @@ void harness_filter_step(void)
 #elif C20_OP == OP_ENABLE_W
 	bufferevent_enable(f, EV_WRITE);
 #elif C20_OP == OP_WRITE
+	/* (output processing does not look at write suspension: part of KF-C20-filter-timeouts, excluded here) */
+	__CPROVER_assume(!U_PRIV(F)->write_suspended);
 	{ size_t m = vp_size(); __CPROVER_assume(m >= 1 && m <= 0xffff); bufferevent_write(f, NULL, m); }
 #elif C20_OP == OP_DISABLE_W
 	bufferevent_disable(f, EV_WRITE);
@@ -157,6 +168,7 @@ void harness_filter_step(void)
 	{
 		size_t before = evbuffer_get_length(f->output);
 		long addsw = c20_adds_tv(&f->ev_write);
+		__CPROVER_assume(!U_PRIV(F)->write_suspended);       /* see OP_WRITE */
 		vp_sink_drain_raw(g_under->output, evbuffer_get_length(g_under->output));      /* the socket accepted everything */
 		be_filter_writecb(g_under, g_bevf);
 		if (evbuffer_get_length(f->output) < before) {
@@ -165,9 +177,24 @@ void harness_filter_step(void)
 		}
 	}
 #elif C20_OP == OP_FLUSH_W
+	/* a flush ignores the enabled bits; flushing a direction that is disabled/suspended re-arms its timeout
+	 * (KF-C20-filter-timeouts): excluded here, isolated by -DKF_ONLY_filter_flush */
+#ifdef KF_ONLY_filter_flush
+	__CPROVER_assume(!((f->enabled & EV_WRITE) && !U_PRIV(F)->write_suspended));
+#else
+	__CPROVER_assume((f->enabled & EV_WRITE) && !U_PRIV(F)->write_suspended);
+#endif
 	bufferevent_flush(f, EV_WRITE, BEV_FLUSH);
 #elif C20_OP == OP_FLUSH_R
-	{ size_t n = vp_size(); __CPROVER_assume(n >= 1 && n <= 0xffff); vp_sink_preset(g_under->input, NULL, n); bufferevent_flush(f, EV_READ, BEV_FLUSH); }
+	{
+		size_t n = vp_size(); __CPROVER_assume(n >= 1 && n <= 0xffff);
+#ifdef KF_ONLY_filter_flush
+		__CPROVER_assume(!c20_want_r(F));
+#else
+		__CPROVER_assume(c20_want_r(F));
+#endif
+		vp_sink_preset(g_under->input, NULL, n); bufferevent_flush(f, EV_READ, BEV_FLUSH);
+	}
 #endif
 	inv();
 	VP_WITNESS("step done");
